@@ -224,7 +224,9 @@ def run(ctx):
     # many divisions with lengths that are not dyadic: positions must be index x length, not a running sum
     for (s, l, span, height, load) in ([(10, 2, "365.76", "3.3", "50"), (15, 7, "0.1", "3.3", "-12.5"), (12, 6, "12345.678", "0.7", "12345.678"),
                                         # measured downwards or leftwards (negative level height / span length): the same grid, mirrored
-                                        (3, 2, "400", "-300", "50"), (2, 3, "-250", "300", "10")]
+                                        (3, 2, "400", "-300", "50"), (2, 3, "-250", "300", "10"),
+                                        # whole numbers past the range of a 64-bit integer (a span in picometres, a load in micronewtons)
+                                        (2, 2, "10000000000000000000", "300000000000000000000", "300000000000000000000")]
                                        + ([] if ctx.tier == "quick" else [(28, 3, "365.76", "0.1", "7"), (20, 11, "0.7", "3.3", "1e-3"), (33, 9, "1.1", "2.2", "99999.99")])):
         args = ["generate", "--type", "retic", "--spans", str(s), "--levels", str(l), "--span", span, "--level", height, "--load", load]
         r = cli.run(ctx, args, name="c19")
